@@ -554,7 +554,7 @@ fn main_frag(a: &Args) {
     list.push((1, false, Sched::Budget(1, 1), false));
     list.push((2, false, Sched::Budget(8, 8), false));
     if thorough {
-        for _ in 0..3000 {
+        for _ in 0..8000 {
             let n = rng.gen_range(1..5);
             let cyc: Vec<usize> = (0..n).map(|_| match rng.gen_range(0..6) { 0 => 0, 1 => 1, 2 => rng.gen_range(2..9), 3 => rng.gen_range(9..40), _ => rng.gen_range(40..5000) }).collect();
             let cyc = if cyc.iter().all(|x| *x == 0) { vec![0, 3] } else { cyc };
@@ -986,7 +986,7 @@ fn thr_list(thorough: bool, rng: &mut StdRng) -> Vec<ThrSc> {
         }
     }
     if thorough {
-        for _ in 0..400 {
+        for _ in 0..2000 {
             let bound = [1usize, 2, 3, 16][rng.gen_range(0..4)];
             let body = [8usize, 40, 300, 2048][rng.gen_range(0..4)];
             let high = match rng.gen_range(0..4) { 0 => 0, 1 => body + 8, 2 => rng.gen_range(1..4000), _ => 65536 };
